@@ -9,7 +9,7 @@
 
   The C++ harness (`/verif/harness`) answers the same requests by calling the real manif.
 -/
-import ManifModel.Bundle
+import ManifModel.Cast
 open Manif
 
 def hexDigit (c : Char) : Option Nat :=
@@ -59,7 +59,19 @@ def respond (f32 : Bool) (line : String) : String :=
       match parse toks [] [] with
       | none => "bad-op"
       | some (fs, is) =>
-        if f32 then
+        if op == "cast" then
+          -- `cast<>()` to the other floating-point type: float -> double in `f32` mode, else double -> float
+          if f32 then
+            match runCast (K := Float32) (K' := Float) Float32.toFloat grp dbg (fs.map Float.toFloat32) with
+            | none => "bad-op"
+            | some (.error e) => "err " ++ e.name
+            | some (.ok out) => " ".intercalate ("ok" :: out.map floatHex)
+          else
+            match runCast (K := Float) (K' := Float32) Float.toFloat32 grp dbg fs with
+            | none => "bad-op"
+            | some (.error e) => "err " ++ e.name
+            | some (.ok out) => " ".intercalate ("ok" :: out.map fun x => floatHex x.toFloat)
+        else if f32 then
           -- single precision: arguments are rounded to `float` exactly as the harness's
           -- `(float)` conversion does, results are widened exactly
           match runTop (K := Float32) grp dbg op mask (fs.map Float.toFloat32) is with
